@@ -64,7 +64,7 @@ pub fn judge_sup(sup: Sup<Trace>, script: &Script, flavor: Flavor, progress_prop
 pub const PROGRESS_PROPS: [&str; 11] = ["C04", "C05", "C06", "C08", "C10", "C11", "C15", "C16", "C17", "C19", "C20"];
 
 pub fn run(ctx: &Ctx, rng: Rng, rep: &mut Report) {
-    let prof = profile(&ctx.prop);
+    let prof = profile(ctx.profile.as_deref().unwrap_or(&ctx.prop));
     let histories = ctx.n(ctx.quick_n.unwrap_or(300), ctx.thorough_n.unwrap_or(6000));
     let flavors = flavors_for(ctx, &[Flavor::Sync], &[Flavor::Sync]);
     let isz = item_size();
